@@ -139,9 +139,15 @@ Definition trig_weights (hooks : list hook) (m : mname) : list Z :=
 Definition pend_weights (m : mname) (p : list (point * inst)) : list Z :=
   map (fun e => snd (fst e)) (filter (fun e => mname_eqb (fst (fst e)) m) p).
 
-(* the weights one handleHooks call visits: fixed on entry *)
+(* await weights, at this very moment, of the calls this moment starts *)
+Definition await_weights (hooks : list hook) (m : mname) : list Z :=
+  map (fun h => snd (h_await h))
+      (filter (fun h => is_call h && mname_eqb (fst (h_trig h)) m && mname_eqb (fst (h_await h)) m) hooks).
+
+(* the weights one handleHooks call visits, fixed on entry: trigger weights of the moment, await
+   weights at this moment of the calls it will start, weights with calls already pending *)
 Definition pass_weights (hooks : list hook) (m : mname) (pred : Z -> bool) (s : est) : list Z :=
-  filter pred (zsort_uniq (trig_weights hooks m ++ pend_weights m (e_pend s))).
+  filter pred (zsort_uniq (trig_weights hooks m ++ await_weights hooks m ++ pend_weights m (e_pend s))).
 
 (* ------------------------------------------------------------------ hook tasks: collector loop *)
 (* runTasksAsHooks: one timer per hook; events are timeouts and BASIC_TASK_TERMINATED *)
@@ -151,12 +157,10 @@ Inductive loopres := LDone (errs : list N) | LCrash.
 Fixpoint remN (x : N) (l : list N) : list N :=
   match l with [] => [] | y :: r => if x =? y then remN x r else y :: remN x r end.
 
-(* [stale]: groups of collectors left behind by earlier trigger failures (their timer maps are
-   empty); [steal h] = k > 0: the termination event of hook h is received by the k-th stale
-   collector instead of the current one (all of them receive from the same unbuffered channel).
-   When the scripted events are exhausted every timer that is still armed fires. *)
-Fixpoint hook_loop (stale : list (list N)) (steal : N -> N) (group timers errs succ : list N)
-         (sched : list hev) : loopres :=
+(* When the scripted events are exhausted every timer that is still armed fires.  The
+   termination of a hook whose timer is gone (it timed out before) is ignored.  [LCrash] is no
+   longer produced by the loop (it used to be: Stop() on a nil timer). *)
+Fixpoint hook_loop (group timers errs succ : list N) (sched : list hev) : loopres :=
   match sched with
   | [] => LDone (timers ++ errs)
   | ev :: r =>
@@ -166,27 +170,21 @@ Fixpoint hook_loop (stale : list (list N)) (steal : N -> N) (group timers errs s
         let timers' := remN h timers in
         match timers' with
         | [] => LDone (h :: errs)
-        | _ => hook_loop stale steal group timers' (h :: errs) succ r
+        | _ => hook_loop group timers' (h :: errs) succ r
         end
-      else hook_loop stale steal group timers errs succ r   (* "no timer in timers map" *)
+      else hook_loop group timers errs succ r   (* "no timer in timers map" *)
     | HTerm h nz vol =>
-      match (if steal h =? 0 then None else nth_error stale (N.to_nat (steal h - 1))) with
-      | Some g =>
-        (* a stale collector got the event: its own hook -> nil timer; else swallowed *)
-        if memN h g then LCrash else hook_loop stale steal group timers errs succ r
-      | None =>
-        if negb (memN h group) then hook_loop stale steal group timers errs succ r   (* continue *)
-        else if negb (memN h timers) then LCrash     (* hookTimers[tid].Stop() on a nil timer *)
-        else
-          let timers' := remN h timers in
-          let bad := nz || negb vol in
-          let errs' := if bad then h :: errs else errs in
-          let succ' := if bad then succ else h :: succ in
-          match timers' with
-          | [] => LDone (if (Nlen succ' =? Nlen group) then [] else errs')
-          | _ => hook_loop stale steal group timers' errs' succ' r
-          end
-      end
+      if negb (memN h group) then hook_loop group timers errs succ r   (* continue *)
+      else if negb (memN h timers) then hook_loop group timers errs succ r   (* late: ignored *)
+      else
+        let timers' := remN h timers in
+        let bad := nz || negb vol in
+        let errs' := if bad then h :: errs else errs in
+        let succ' := if bad then succ else h :: succ in
+        match timers' with
+        | [] => LDone (if (Nlen succ' =? Nlen group) then [] else errs')
+        | _ => hook_loop group timers' errs' succ' r
+        end
     end
   end.
 
@@ -215,14 +213,13 @@ Definition sched_of (group : list N) (touts : list (N * tout)) : list hev :=
 Definition trig_fails (group : list N) (touts : list (N * tout)) : bool :=
   existsb (fun h => tout_eqb (tout_of touts h) TTrigFail) group.
 
-Definition run_tasks (stale : list (list N)) (steal : N -> N) (group : list N) (touts : list (N * tout))
-  : loopres :=
+Definition run_tasks (group : list N) (touts : list (N * tout)) : loopres :=
   match group with
   | [] => LDone []
   | _ =>
     if trig_fails group touts
-    then LDone group                                (* hookHandlerF failed: every hook gets the error *)
-    else hook_loop stale steal group group [] [] (sched_of group touts)
+    then LDone group        (* hookHandlerF failed: collector stopped, every hook gets the error *)
+    else hook_loop group group [] [] (sched_of group touts)
   end.
 
 (* ------------------------------------------------------------------ one weight, one pass *)
@@ -275,12 +272,11 @@ Definition do_weight (hooks : list hook) (orc : oracle) (m : mname) (w : Z) (s :
   let tasks := map h_id (filter is_task hs) in
   let t3 := match tasks with
             | [] => []
-            | _ => (match e_stale s with [] => [] | _ => [TUnsure (m, w)] end) ++ [TTasks tasks (m, w)]
+            | _ => [TTasks tasks (m, w)]
             end in
   let trigfail := match tasks with [] => false | _ => trig_fails tasks (or_touts orc) end in
-  (* a failed trigger command leaves the collector goroutine behind *)
-  let s2 := if trigfail then add_stale tasks (set_pend pend2 s) else set_pend pend2 s in
-  match run_tasks (e_stale s) (steal_of orc) tasks (or_touts orc) with
+  let s2 := set_pend pend2 s in
+  match run_tasks tasks (or_touts orc) with
   | LCrash => (s2, t1 ++ t2 ++ t3 ++ [TCrash (m, w)], None, true)
   | LDone errs =>
     let tfail := filter (crit_of hooks) (filter (fun h => memN h errs) tasks) in
@@ -492,11 +488,11 @@ Definition transition (hooks : list hook) (orc : oracle) (e : evt) (b : body) (s
           if cE then (s4, tB ++ tL ++ body_trace e true ++ tE, RCrash) else
           let '(s5, tA, eA, cA) := after_stage hooks orc e (nonnil eE) s4 in
           if cA then (s5, tB ++ tL ++ body_trace e true ++ tE ++ tA, RCrash) else
-          (* Event.Cancel overwrites e.Err: the last error set is what the caller gets *)
+          (* after_event joins its errors with the one enter_state left in e.Err *)
           (s5, tB ++ tL ++ body_trace e true ++ tE ++ tA,
-           match eA with
-           | _ :: _ => RHook eA
-           | [] => match eE with _ :: _ => RHook eE | [] => ROk end
+           match eE ++ eA with
+           | _ :: _ => RHook (eE ++ eA)
+           | [] => ROk
            end)
         end
       end
@@ -1091,6 +1087,9 @@ Definition mon08 (c : c08_case) : N :=
             failure at after_<event> replaced it
           9 crash with a hook task that terminates after it timed out while another hook task of
             the same weight is still awaited (nil timer)
+         12 a critical call awaited in place at before_<event> / leave_<state> failed, yet a hook
+            of a later weight or later moment of that (cancelled) transition, or the task
+            transition, was executed afterwards
          11 crash, hang or wrong outcome when hook tasks are triggered after a hook-task trigger
             command failed (the collector goroutine of the failed group is left behind and
             receives the termination events of later groups)                              *)
@@ -1164,6 +1163,49 @@ Definition tasks_after_trigfail (o : op) (recs : list orec) : bool :=
 Definition any_tasks (recs : list orec) : bool :=
   existsb (fun r => match r with OT _ => true | _ => false end) recs.
 
+(* code 12: keys of the hooks executed after the end record of a failing critical in-place call of
+   phase 0 / 1 (before_, leave_) must not be larger than that call's key *)
+Definition key_of_hook (e : evt) (src dst : st) (hk : hook) : option (N * Z) :=
+  match phase_of e src dst (fst (h_trig hk)) with
+  | Some ph => Some (ph, snd (h_trig hk))
+  | None => None
+  end.
+Definition later_than (hooks : list hook) (e : evt) (src dst : st) (k : N * Z) (opi : N) (r : orec) : bool :=
+  match r with
+  | OS h o _ =>
+    (o =? opi) &&
+    match find_hook hooks h with
+    | Some hk => match key_of_hook e src dst hk with Some k' => key_lt k k' | None => false end
+    | None => false
+    end
+  | OT hs =>
+    existsb (fun h => match find_hook hooks h with
+                      | Some hk => match key_of_hook e src dst hk with Some k' => key_lt k k' | None => false end
+                      | None => false end) hs
+  | OB => true
+  | _ => false
+  end.
+Definition no_later_hook_ok (hooks : list hook) (ops_all : list op) (e : evt) (src dst : st)
+           (recs : list orec) (opi : N) : bool :=
+  forallb (fun r => match r with
+    | OS h o _ =>
+      if (o =? opi) && scripted_crit_fail hooks ops_all (h, o) then
+        match find_hook hooks h with
+        | Some hk =>
+          if sync_hook hk then
+            match key_of_hook e src dst hk with
+            | Some (ph, w) =>
+              if ph <=? 1
+              then negb (existsb (later_than hooks e src dst (ph, w) opi) (suffix_from (is_OE (h, o)) recs))
+              else true
+            | None => true
+            end
+          else true
+        | None => true
+        end
+      else true
+    | _ => true end) recs.
+
 Fixpoint mon09_ops (hooks : list hook) (ops_all : list op) (ops : list op) (oos : list opobs)
          (segs : list (list orec)) (src : st) (pend : list (point * (N * N) * bool)) (opi : N)
          (stale : bool) : N :=
@@ -1184,7 +1226,8 @@ Fixpoint mon09_ops (hooks : list hook) (ops_all : list op) (ops : list op) (oos 
           let crit_task_failed := task_fail_scripted hooks o recs true in
           let body_failed := match o_body o with BOk => false | _ => step_ran (STasks e) recs end in
           first_nonzero
-            [ (* early cancel *)
+            [ (if no_later_hook_ok hooks ops_all e src dst recs opi then 0 else 12);
+              (* early cancel *)
               (if step_err nB recs then
                  if stayed && negb (step_ran nL recs) && negb (existsb (fun r => match r with OB => true | _ => false end) recs)
                     && res_is_err res && res_names res (MBefore e) then 0 else 1
@@ -1255,7 +1298,11 @@ Definition mon09 (c : c08_case) : N :=
             non-negative before_START_ACTIVITY hooks, or the run number did not increase
           9 crash or hang
          10 the run was ended by forcing the ERROR state after a failed GO_ERROR: end timestamps
-            missing, number kept                                                            *)
+            missing, number kept
+         11 a GO_ERROR transition ran to the end of after_GO_ERROR while a start stamp without end
+            stamps was there (a run that failed to start, or whose task transition failed, or that
+            was running), yet an end stamp is still empty afterwards: the end of that run is not
+            recorded                                                                        *)
 
 Definition ov_set (v : ov) : option N := match v with VSet n => Some n | _ => None end.
 Definition ov_eqb (a b : ov) : bool :=
@@ -1355,6 +1402,14 @@ Fixpoint mon10_ops (hooks : list hook) (ops : list op) (oos : list opobs) (segs 
                  match os_soeor v, os_eoeor v with
                  | VSet _, VSet _ => 0
                  | _, _ => if forced && res_is_err (oo_res oo) then 10 else 5
+                 end
+               else 0);
+              (* 11: a completed GO_ERROR closes whatever run was begun *)
+              (if evt_eqb e GO_ERROR && (2 <=? Nlen (filter (is_OM_begin (SMoment (MAfter GO_ERROR))) recs)) then
+                 match os_sosor prev, os_sosor v with
+                 | VSet _, VSet _ =>
+                   match os_soeor v, os_eoeor v with VSet _, VSet _ => 0 | _, _ => 11 end
+                 | _, _ => 0
                  end
                else 0);
               (* 6: gone after STOP *)
